@@ -10,7 +10,9 @@
 (*   [op |-> "shape", h, fill, n, tr]      long-form / size-boundary       *)
 (*        shapes: header bytes h, n copies of fill, trailing bytes tr,     *)
 (*   [op |-> "enc", t, v]                  typed values of the driver's    *)
-(*        type catalogue (boundary values of every kind).                  *)
+(*        type catalogue (boundary values of every kind),                  *)
+(*   [op |-> "encseq", t1, v1, t2, v2]     an encode that fails after it   *)
+(*        produced output (v1), directly followed by an ordinary one (v2). *)
 (* Theorems (invariants over all cases):                                   *)
 (*   Canonical:  Dec(b) # Err => Enc(Dec(b)) = b, and for every type T     *)
 (*               TDec(T,b) # Err => TEnc(T, TDec(T,b)) = b                 *)
@@ -148,6 +150,20 @@ Vals(T) ==
     [] T.t = "iface" -> {Z} \cup {IfaceVal(x) : x \in SmallItems}
     [] T.t = "raw" -> {[k |-> "r", b |-> Enc(x)] : x \in SmallItems}
 
+(* encode sequences: a value whose encoding fails after output was produced (a negative
+   integer behind an encodable field of a struct), directly followed by an ordinary value;
+   the encoding of the second must be what it is without the history *)
+NEG == [k |-> "neg", b |-> <<0, 5>>]
+BadVals ==
+  { [t |-> "Sptr", v |-> LV(<<UV(Fix8(<<1, 44>>)), NEG, BV(<<3>>)>>)],
+    [t |-> "Sptr", v |-> LV(<<Z, NEG, Z>>)],
+    [t |-> "EthTx", v |-> LV(<<UV(Fix8(<<7>>)), UV(<<0, 1>>), UV(Fix8(<<82, 8>>)), Z, NEG, BV(<<1, 2, 3>>),
+                              UV(<<0, 27>>), UV(<<0, 1>>), UV(<<0, 1>>)>>)],
+    [t |-> "big", v |-> NEG] }
+SeqTypes == {"u64", "u8", "bytes", "str", "big", "S1", "lu64", "iface", "EthTx", "Stail", "raw"}
+EncSeqs == UNION { UNION { { [op |-> "encseq", t1 |-> bd.t, v1 |-> bd.v, t2 |-> t, v2 |-> v]
+                              : v \in Few(TypeOf[t]) \cup {Def(TypeOf[t])} } : t \in SeqTypes } : bd \in BadVals }
+
 (* encodings of typed values with one empty string swapped for an empty list or back *)
 SwapAt(b, i) == [b EXCEPT ![i] = IF b[i] = 128 THEN 192 ELSE 128]
 SwapsOf(t) == UNION { LET b == TEnc(TypeOf[t], v) IN
@@ -159,10 +175,12 @@ Seeds == { [op |-> "seed", fam |-> "bytes", a |-> a] : a \in Alphabet \cup {-1} 
          \cup { [op |-> "seed", fam |-> f] : f \in ShapeFamilies }
          \cup { [op |-> "seed", fam |-> "vals", t |-> t] : t \in TypeNames }
          \cup { [op |-> "seed", fam |-> "swap", t |-> t] : t \in TypeNames }
+         \cup { [op |-> "seed", fam |-> "encseq"] }
 
 CasesOf(s) ==
   IF s.fam = "bytes" THEN
        (IF s.a = -1 THEN {[op |-> "dec", in |-> <<>>]} ELSE {[op |-> "dec", in |-> b] : b \in StringsFrom(s.a)})
+  ELSE IF s.fam = "encseq" THEN EncSeqs
   ELSE IF s.fam = "swap" THEN {[op |-> "dec", in |-> b] : b \in SwapsOf(s.t)}
   ELSE IF s.fam = "vals" THEN {[op |-> "enc", t |-> s.t, v |-> v] : v \in Vals(TypeOf[s.t])}
   ELSE {[op |-> "shape", h |-> sh.h, fill |-> sh.fill, n |-> sh.n, tr |-> sh.tr] : sh \in ShapesOf(s.fam)}
@@ -191,7 +209,9 @@ LosslessAt(t, v) ==
   /\ ~IsErr(Dec(b)) /\ Enc(Dec(b)) = b
 
 Theorems == phase = 1 =>
-  IF c.op = "enc" THEN LosslessAt(c.t, c.v) ELSE CanonicalAt(BytesOf(c))
+  IF c.op = "enc" THEN LosslessAt(c.t, c.v)
+  ELSE IF c.op = "encseq" THEN LosslessAt(c.t2, c.v2)      \* Enc is a function of the value alone
+  ELSE CanonicalAt(BytesOf(c))
 
 (* Dec(Enc(x)) = x on the untyped level *)
 ASSUME \A x \in SmallItems : Dec(Enc(x)) = x
